@@ -15,6 +15,7 @@ package main
 
 import (
 	"fmt"
+	"sort"
 	"go/token"
 	"go/types"
 	"os"
@@ -137,6 +138,7 @@ type Own struct {
 	retBusy map[*ssa.Function]bool
 	cmemo   map[ssa.Value]vpair
 	cbusy   map[ssa.Value]bool
+	cuts    int
 }
 
 func NewOwn(w *World, scope map[*ssa.Function]bool) *Own {
@@ -223,12 +225,17 @@ func (o *Own) classOf(v ssa.Value) vpair {
 		return c
 	}
 	if o.cbusy[v] {
+		o.cuts++
 		return vpair{freshC, freshC, true} // cycle through a loop phi: the other edges decide
 	}
 	o.cbusy[v] = true
+	before := o.cuts
 	c := o.classOf1(v)
 	delete(o.cbusy, v)
-	o.cmemo[v] = c
+	// a result computed while a cycle was cut below is only valid for the root of that evaluation
+	if o.cuts == before || len(o.cbusy) == 0 {
+		o.cmemo[v] = c
+	}
 	return c
 }
 
@@ -407,10 +414,12 @@ func (o *Own) returnClass(fn *ssa.Function) vpair {
 		return *c
 	}
 	if o.retBusy[fn] {
+		o.cuts++
 		return freshP
 	}
 	o.retBusy[fn] = true
 	defer delete(o.retBusy, fn)
+	before := o.cuts
 	c := freshP
 	for _, b := range fn.Blocks {
 		if len(b.Instrs) == 0 {
@@ -431,7 +440,9 @@ func (o *Own) returnClass(fn *ssa.Function) vpair {
 			break
 		}
 	}
-	o.retMemo[fn] = &c
+	if o.cuts == before || len(o.retBusy) == 1 {
+		o.retMemo[fn] = &c
+	}
 	return c
 }
 
@@ -483,7 +494,7 @@ func (o *Own) Infer() []ownSite {
 				sites = append(sites, ownSite{fn, at, what, false, "a map that is " + mc.self.String() + " is written in place"})
 			}
 		}
-		for fn := range o.scope {
+		for _, fn := range o.sortedScope() {
 			for _, b := range fn.Blocks {
 				for _, in := range b.Instrs {
 					switch x := in.(type) {
@@ -588,4 +599,18 @@ func (o *Own) Infer() []ownSite {
 		}
 	}
 	return sites
+}
+
+func (o *Own) sortedScope() []*ssa.Function {
+	var fns []*ssa.Function
+	for f := range o.scope {
+		fns = append(fns, f)
+	}
+	sort.Slice(fns, func(i, j int) bool {
+		if fns[i].Pos() != fns[j].Pos() {
+			return fns[i].Pos() < fns[j].Pos()
+		}
+		return fns[i].String() < fns[j].String()
+	})
+	return fns
 }
